@@ -477,7 +477,41 @@ def rule_histories(ctx):
     ctx.floor("C15.k histories", n, 3)
 
 
+def rule_every_entry_point_inlines(ctx):
+    """C15.l: `$name` is substituted in every statement the session runs, whichever entry point runs it and whatever the
+    paramstyle: execute() and executemany() under pyformat and qmark all hand the parser a text that went through the
+    variable substitution (a fast path that parses the raw command skips it, and with it the undefined-variable error)."""
+    from ..execmodel import run_execute
+    from ..values import Lst, Tup
+    from .c05 import _prov_nodes
+    from .c08 import _is_substitution
+
+    prog = ctx.prog
+    n = 0
+    rows = Lst([Tup([Sym("A1")]), Tup([Sym("A2")])])
+    for entry, params in (("execute", Tup([Sym("A1")])), ("executemany", rows)):
+        if not prog.has_fn("cursor", f"FakeSnowflakeCursor.{entry}"):
+            continue
+        for style in ("pyformat", "qmark"):
+            for tr in run_execute(prog, "INSERT", None, params=params, paramstyle=style, variables={"V": Const("1")}, entry=entry, undefined_var=False):
+                texts = [e[1] for e in tr.path.effects if e[0] == "parse-user"]
+                if not texts:
+                    continue
+                n += 1
+                raw = [t for t in texts if not any(_is_substitution(x) for x in _prov_nodes(t))]
+                ctx.ob("C15.l", f"{entry}() under {style}: the parsed text went through the variable substitution", not raw, "fakesnow/cursor.py",
+                       tagof(raw[0])[:60] if raw else "")
+                if raw:
+                    ctx.violation("C15.l", "cursor", f"FakeSnowflakeCursor.{entry}", f"{entry}() under {style} parses the raw command", "fakesnow/cursor.py",
+                                  f"{entry}() under paramstyle {style} hands `{tagof(raw[0])[:60]}` to the parser without substituting session variables: "
+                                  f"`$v` in the statement reaches the engine as written (a parameter placeholder / column error), and an undefined "
+                                  f"variable is not reported as such")
+                break
+    ctx.floor("C15.l entry point x paramstyle traces", n, 3)
+
+
 RULES = [
+    ("C15.l", rule_every_entry_point_inlines, ("quick", "thorough")),
     ("C15.k", rule_histories, ("quick", "thorough")),
     ("C15.j", rule_script_not_presubstituted, ("quick", "thorough")),
     ("C15.a", rule_store, ("quick", "thorough")),
